@@ -115,8 +115,13 @@ def _set_component(e, leaf):
 
 
 def _root(e):
-    while isinstance(e, ast.Subscript):
-        e = e.value
+    while True:
+        if isinstance(e, ast.Subscript):
+            e = e.value
+        elif isinstance(e, ast.Call) and isinstance(e.func, ast.Name) and e.func.id == 'ELEM' and e.args:
+            e = e.args[0]
+        else:
+            break
     return e.id if isinstance(e, ast.Name) else None
 
 
